@@ -175,6 +175,17 @@ pub fn run(ctx: &mut Ctx) {
         let nm = more.len();
         ctx.run_par(&SUB_ORB, more, Some(&format!("{} symbols: every D-set with {}..={} chambers listed by the crate's D-set generator with all v = 1 and with one pseudo-random assignment v <= 4", nm, lo + 1, hi)));
     }
+    // answers must not depend on what was asked before (scratch state shared between calls)
+    ctx.layer("call-history");
+    {
+        let texts = [("<1.1:6:2 4 6,6 3 5,1 2 3 4 5 6:3,4 6 4>", "<1.1:1:1,1,1:4,4>"), ("<1.1:8:2 4 6 8,8 3 5 7,1 2 3 4 5 6 7 8:4,4 6 8 4>", "<1.1:2:2,1 2,2:4,4>"), ("<1.1:3:1 2 3,1 3,2 3:4 8,3>", "<1.1:1:1,1,1:3,6>"), ("<1.1:12:2 4 6 8 10 12,12 3 5 7 9 11,1 2 3 4 5 6 7 8 9 10 11 12:6,4 4 4 4 4 4>", "<1.1:3:1 2 3,1 3,2 3:3 6,4>")];
+        let mut cases: Vec<StressCase> = texts.iter().filter_map(|(b, s)| Some(StressCase { big: DS::parse(b)?, small: DS::parse(s)? })).filter(|c| c.big.is_complete() && c.big.is_connected() && c.small.is_complete() && c.small.is_connected()).collect();
+        if t == Tier::Thorough {
+            let extra: Vec<StressCase> = dsets.iter().filter(|d| d.size >= 4).take(12).map(|d| StressCase { big: assign(d, &orbit_reps(d), &vec![3; orbit_reps(d).len()]), small: DS::parse("<1.1:1:1,1,1:3,6>").unwrap() }).collect();
+            cases.extend(extra);
+        }
+        ctx.run_par(&SUB_STRESS, cases, None);
+    }
     ctx.layer("random");
     let n = t.pick(40_000u32, 2_000_000u32);
     let sw = || prop::collection::vec((any::<u32>(), any::<u32>()), 0..8);
@@ -206,9 +217,54 @@ pub fn run(ctx: &mut Ctx) {
     }
 }
 
+/// (larger symbol, smaller symbol): the crate's answers for the larger one before and after runs of calls
+/// on the smaller one
+#[derive(Clone, Debug, Hash)]
+pub struct StressCase {
+    pub big: DS,
+    pub small: DS,
+}
+
+impl Case for StressCase {
+    fn encode(&self) -> Value {
+        json!({"big": self.big.encode(), "small": self.small.encode()})
+    }
+    fn decode(v: &Value) -> Option<Self> {
+        Some(StressCase { big: DS::decode(v.get("big")?)?, small: DS::decode(v.get("small")?)? })
+    }
+    fn weight(&self) -> usize {
+        self.big.size + self.small.size
+    }
+    fn hash64(&self) -> u64 {
+        h64(self)
+    }
+}
+
+fn check_stress(c: &StressCase, obs: &mut Obs) -> Result<(), String> {
+    let (b, s) = (c.big.to_partial(), c.small.to_partial());
+    let own = facts(&c.big, false)?;
+    let big = || (crate_curvature(&b), orbifold_symbol(&b), is_euclidean(&b), is_hyperbolic(&b), is_spherical(&b));
+    let first = big();
+    ensure!(first.0 == own.k, "harness: curvature of the larger symbol");
+    let calls = wrap_stress(big, || { let _ = crate_curvature(&s); }, &format!("curvature / orbifold symbol / geometry class of {} with curvature calls on {} in between", c.big.text(), c.small.text()))?;
+    let calls2 = wrap_stress(big, || { let _ = orbifold_symbol(&s); }, &format!("curvature / orbifold symbol / geometry class of {} with orbifold_symbol calls on {} in between", c.big.text(), c.small.text()))?;
+    obs.nontrivial(c.big.size > c.small.size);
+    obs.class(&format!("{} calls on the smaller symbol", calls + calls2));
+    Ok(())
+}
+
+pub const SUB_STRESS: Sub<StressCase> = Sub {
+    name: "call_history",
+    rule: "(larger symbol B, smaller symbol S): curvature, orbifold symbol and the three geometry predicates of B are evaluated, then n calls on S, then B again, for n in windows around 2^8 / p and 2^16 / p (p = 1..6); the answers for B never change (and the curvature is the own exact value); non-trivial = B has more chambers than S",
+    check: check_stress,
+    panic_discards: &[],
+    journal: false,
+};
+
 pub fn replay(ctx: &mut Ctx, sub: &str, case: &Value) -> Option<Result<(), String>> {
     Some(match sub {
         "orbifold" => ctx.run_one(&SUB_ORB, &OrbCase::decode(case)?),
+        "call_history" => ctx.run_one(&SUB_STRESS, &StressCase::decode(case)?),
         _ => return None,
     })
 }
